@@ -11,7 +11,7 @@ from vlib.core import exc_site, fmt_exc
 PROPERTY = "C04"
 LEVEL = "exploration"
 CLAIM = {
-    "text": "Exploration by runtime monitoring: every writer path (prep_outfile+cwrite at 1/2/4/8/16/32 bits in one or several calls, FilterbankBlock.to_file, TimeSeries.to_tim/to_dat, FourierSeries.to_spec/to_fft) is driven with every in-memory dtype in {uint8,uint16,int64,float32,float64} and random shapes/values; the product is parsed by an independent SIGPROC parser (declared depth vs actual byte count) and re-read with the matching library reader, comparing values bit-for-bit, inferred sample counts and tsamp/tstart/DM. A FileWriter spy checks on-disk growth per call against size*nbits/8. The header DM of block products must survive, and products whose basename contains a dot (`_DM12.50`) must be written under that name next to a sibling product. Rounds 7-8 added: 8/16/32-bit .tim products read back with from_tim, series epochs within seconds of 0h UTC, and a third, shorter product under a reused name.",
+    "text": "Exploration by runtime monitoring: every writer path (prep_outfile+cwrite at 1/2/4/8/16/32 bits in one or several calls, FilterbankBlock.to_file, TimeSeries.to_tim/to_dat, FourierSeries.to_spec/to_fft) is driven with every in-memory dtype in {uint8,uint16,int64,float32,float64} and random shapes/values; the product is parsed by an independent SIGPROC parser (declared depth vs actual byte count) and re-read with the matching library reader, comparing values bit-for-bit, inferred sample counts and tsamp/tstart/DM. A FileWriter spy checks on-disk growth per call against size*nbits/8. The header DM of block products must survive, and products whose basename contains a dot (`_DM12.50`) must be written under that name next to a sibling product. Rounds 7-8 added: 8/16/32-bit .tim products read back with from_tim, series epochs within seconds of 0h UTC, and a third, shorter product under a reused name. Round 10 added: signed samples (and eighths from floating-point arrays) for 32-bit products.",
     "design_ref": "DESIGN.md section 3 (C04)",
     "note": "Trusted: vlib/sigfile.py parser, numpy dtype conversions of representable integers. When the in-memory dtype differs from the file type either an identical read-back or an exception raised before any data byte is written is accepted.",
     "technique": "runtime monitoring: write/read-back differential with independent file parser + FileWriter growth spy",
